@@ -380,7 +380,14 @@ def run_batch(cases, cycles, acc, attributed, say=None):
                 # one proxy object kept across two assignments and the read (a caller holding `tf = shape.text_frame`):
                 # anything the proxy remembers from the first assignment must not show in the second
                 a = accessor(obj, c.kind, level, c.pi, c.ri)
+                if (c.sid + len(s)) % 2 == 0:
+                    # ... and READ through it first (`print(tf.text)`, `len(tf.paragraphs)`): what a reading memoises on the
+                    # proxy must not outlive the next assignment either
+                    _ = a.text
+                    _ = len(list(getattr(a, "paragraphs", None) or getattr(a, "runs", None) or ()))
+                    acc.count("proxies_read_before_being_assigned_through")
                 a.text = "pr\nior\v x"
+                _ = a.text
                 a.text = s
                 got = a.text
                 acc.count("assignments_through_a_proxy_that_was_assigned_before")
